@@ -6,7 +6,7 @@
  "function": "inline_snapshot._rewrite_code.SourceFile.rewrite",
  "verdict": "refuted",
  "backend": "z3-5.1",
- "solver_model": "",
+ "solver_model": "truth_opq_in!13 = True",
  "where": ""
 }
 """
